@@ -29,7 +29,15 @@ def main():
     try:
         with vlib.Scratch(prop.lower()) as scratch:
             if a.replay:
-                return mod.replay_one(scratch, a.replay)
+                if hasattr(mod, "replay_one"):
+                    return mod.replay_one(scratch, a.replay)
+                import json
+                d = json.load(open(a.replay))
+                print("replay of %s: signature=%s" % (d.get("property"), d.get("signature")))
+                print(d.get("detail"))
+                print(json.dumps(d.get("scenario"), indent=1)[:4000])
+                print("(self-contained scenario above; re-run `python3 tools/check.py %s` to re-execute the whole family against the current tree)" % prop)
+                return 0
             chk = vlib.Check(prop, a.tier, level=getattr(mod, "LEVEL", "model_checking"))
             mod.run(chk, scratch)
             return chk.finish()
